@@ -20,3 +20,20 @@ def ptcModel (L dur : Nat) (v : Rat) (adj : Bool) (infl : Rat) : List Rat :=
   ptcFrom v infl adj dur 0 0 ++ List.replicate (L - dur) 0
 
 end GeoVerif
+
+namespace GeoVerif
+
+/-- `for i in range(cy): Price.insert(0, 0.0)` -/
+def padFront : Nat → List Rat → List Rat
+  | 0, xs => xs
+  | n+1, xs => padFront n (0 :: xs)
+
+/-- investment tax credit, then one-time fees, incentives and grants (Economics.py, after the CCap roll-up) -/
+def capexAdjust (ccap ritc : Rat) (ritcProvided : Bool) (fees incentives grants : Rat) : Rat :=
+  let c := if ritcProvided then ccap - ritc * ccap else ccap
+  c + fees - incentives - grants
+
+/-- annual fees and tax relief on total O&M -/
+def opexAdjust (coam annualFees taxRelief : Rat) : Rat := coam + annualFees - taxRelief
+
+end GeoVerif
